@@ -246,5 +246,16 @@ func c14BlockMenu(full bool) []c14Block {
 			}
 		}
 	}
+	if full {
+		// bodies whose extrinsic COUNT crosses the compact-integer modes (the count is re-encoded by hand
+		// in NewBodyFromEncodedBytes): 63/64/65 (1 -> 2 bytes) and 16383/16384 (2 -> 4 bytes)
+		for _, n := range []int{63, 64, 65, 300, 16383, 16384} {
+			var ex [][]byte
+			for i := 0; i < n; i++ {
+				ex = append(ex, []byte{byte(i), byte(i >> 8)})
+			}
+			out = append(out, c14Block{Hash: ref.C14TameHash32(0x3f), Header: &hs[2], Body: &ex})
+		}
+	}
 	return out
 }
